@@ -4,6 +4,8 @@
 #[cfg(kani)]
 mod model;
 #[cfg(kani)]
+mod c01;
+#[cfg(kani)]
 mod c02;
 #[cfg(kani)]
 mod c04;
